@@ -1,4 +1,6 @@
 SPECIFICATION Spec
 CONSTANT Sigs <- SigsNamed
+CONSTANT RowsInUse <- RowsCode
+CONSTANT OffsetInUse <- OffsetCode
 INVARIANT NameRowsHold
 CHECK_DEADLOCK FALSE
